@@ -6,6 +6,7 @@ import (
 	"encoding/hex"
 	"encoding/json"
 	"fmt"
+	"math/big"
 	"os"
 	"sort"
 	"strings"
@@ -306,6 +307,34 @@ func (w *world) c09Forgeries(byName map[string]c09tx) []forgery {
 		"26e8958fc2b227b045c3f489f2ef98f0d5dfac05d3c63339b13802886d53fc85",
 	}
 	zeroNonceTx := transaction.NewTransaction(0, nil, staking.MethodTransfer, staking.Transfer{To: chain.Addr(w.keys.Accounts[1]), Amount: qq(0)})
+	// and with R = [S]B for a non-trivial S (R is then not of small order)
+	{
+		seed := sha512.Sum512([]byte("verif small order forgery"))
+		priv := ed25519.NewKeyFromSeed(seed[:32])
+		h := sha512.Sum512(seed[:32])
+		a := h[:32]
+		a[0] &= 248
+		a[31] &= 127
+		a[31] |= 64
+		be := make([]byte, 32)
+		for i := range a {
+			be[31-i] = a[i]
+		}
+		L, _ := new(big.Int).SetString("7237005577332262213973186563042994240857116359379907606001950938285454250989", 10)
+		sInt := new(big.Int).Mod(new(big.Int).SetBytes(be), L)
+		sBE := sInt.FillBytes(make([]byte, 32))
+		for ai, ah := range smallOrder {
+			var s transaction.SignedTransaction
+			s.Blob = cbor.Marshal(zeroNonceTx)
+			ab, _ := hex.DecodeString(ah)
+			copy(s.Signature.PublicKey[:], ab)
+			copy(s.Signature.Signature[:32], priv.Public().(ed25519.PublicKey))
+			for i := 0; i < 32; i++ {
+				s.Signature.Signature[32+i] = sBE[31-i]
+			}
+			fs = append(fs, forgery{Name: fmt.Sprintf("small-order:A%d,R=[S]B", ai), Raw: cbor.Marshal(s)})
+		}
+	}
 	for ai, ah := range smallOrder {
 		for ri, rh := range smallOrder {
 			var s transaction.SignedTransaction
